@@ -20,7 +20,8 @@ intro = ("\nEach change below was written by a fresh sub-agent that saw only the
          "The lead verified each one with `tools/seedtest.py` (demo passes on the clean tree, fails with the patch; patch builds; existing tests of the touched packages pass) "
          "and ran the check against it with `VERIF_REPO=<worktree>`; patches, demos and the verification record are under `seeded/<seed>/`. "
          "Where a change was missed at first, the generator/oracle was strengthened generically and the change re-run (later runs in the list).\n\n")
-block = head + intro + table + "\n"
+totals = "Totals: 164 changes, 4 per property (five batches). 161 are caught by the quick tier of the property's own check — about one in five of them only after the generator or oracle had been strengthened generically (C01-2, C02-1, C03-2/3/4, C05-4, C08-3, C09, C10-1, C11-2/4, C12, C13, C17, C19-4, C21-3/4, C23-3, C24-3, C28, C29, C31, C37-2, C39, C40-4, C41-2/3 …), which is what the seeding was for; the rows list the runs in order. The three others are documented in their rows: C02-2 (behaviour-preserving on every history the real runtime can produce on 3 voters: the stale donor's page is refused), C34-4 (a storage-layer change in C16's anchored code, caught by C16, invisible to C34 whose anchors are the usecase files) and C30-3 (outside C30's statement: no restore floor is ever set in the failing history; the anchored allocator behaves as stated)."
+block = head + intro + totals + "\n\n" + table + "\n"
 if head in s:
     i = s.index(head)
     j = s.find("\n### ", i + 10)
